@@ -284,8 +284,15 @@ def run_check(prop_id, tier, seed, replay=None, workers=None, keep=False):
     if zero and not replay:
         inconclusive.append("monitors-saw-nothing:" + ",".join(zero))
     reach_rows, missing = reach_report(getattr(mod, "REACH", []), executed)
-    if missing and not replay:
+    present = [r for r in reach_rows if "hit" in r]
+    # The reach recorder is evidence (which anchored lines ran).  A single unexecuted pattern is NOT a verdict: a refactoring
+    # may legitimately stop using a helper and leave it in place; what makes a run conclusive is that the deciding monitors
+    # observed events (REQUIRED / CONCLUSIVE).  Only when none of the anchored patterns ran at all is the workload
+    # evidently not exercising the code the property is anchored in.
+    if present and len(missing) == len(present) and not replay:
         inconclusive.append("unreached:" + ",".join(missing))
+    if hasattr(mod, "CONCLUSIVE") and not replay:
+        inconclusive.extend(mod.CONCLUSIVE(counters))
     if len(nontrivial) < 2 and not replay:
         inconclusive.append("too-few-nontrivial-cases")
 
@@ -320,6 +327,7 @@ def run_check(prop_id, tier, seed, replay=None, workers=None, keep=False):
             "distinct_seen": {k: len(v) for k, v in sorted(sets.items())},
             "distinct_values_small_sets": {k: sorted(v) for k, v in sorted(sets.items()) if len(v) <= 12},
             "reach_guard": reach_rows,
+            "reach_unhit": missing,
             "anchored_lines": anchored_line_stats(anchors, executed),
             "workers": nw,
             "known_findings_matched": {k: len(v) for k, v in matched.items()},
